@@ -184,6 +184,14 @@ Proof.
   - contradiction.
 Qed.
 
+Lemma pub_mat_wf m : wf_pubmat m -> pub_mat m = m.
+Proof. destruct m; cbn [wf_pubmat pub_mat]; intros H; [reflexivity..|contradiction]. Qed.
+
+Lemma wf_pub_pubkey k : wf_pub k -> wf_pub (pubkey_pkt k).
+Proof.
+  intros [A [B C]]. unfold wf_pub, pubkey_pkt. cbn [k_created k_alg k_mat]. rewrite (pub_mat_wf _ C). auto.
+Qed.
+
 Lemma pubmat_len_nonneg m : wf_pubmat m -> 0 <= pubmat_len m.
 Proof. intros H. rewrite <- publen_correct by assumption. lia. Qed.
 
@@ -217,7 +225,7 @@ Proof.
   replace (k_created (pubkey_pkt k)) with (k_created k) by reflexivity.
   replace (k_alg (pubkey_pkt k)) with (k_alg k) by reflexivity.
   rewrite key_head by assumption. unfold keymaterial_bytes, pubkey_pkt. cbn [k_mat k_sec].
-  rewrite app_nil_r. destruct H as [_ [_ Hm]]. rewrite material_eq_rfc by assumption.
+  rewrite app_nil_r. destruct H as [_ [_ Hm]]. rewrite (pub_mat_wf _ Hm). rewrite material_eq_rfc by assumption.
   unfold rfc_pub_body. rewrite <- !app_assoc. reflexivity.
 Qed.
 
@@ -228,9 +236,9 @@ Proof. intros H. rewrite key_head by assumption. rewrite !app_length, length_be.
 Lemma length_pub_body k : wf_pub k -> Z.of_nat (length (pub_packet_body k)) = 6 + publen k.
 Proof.
   intros H. unfold pub_packet_body. rewrite key_body_split, app_length.
-  rewrite (length_key_head (pubkey_pkt k)) by exact H.
+  rewrite (length_key_head (pubkey_pkt k)) by (apply wf_pub_pubkey; exact H).
   unfold keymaterial_bytes, pubkey_pkt, publen. cbn [k_mat k_sec]. rewrite app_nil_r.
-  destruct H as [_ [_ Hm]]. rewrite Nat2Z.inj_add, publen_correct by assumption. lia.
+  destruct H as [_ [_ Hm]]. rewrite (pub_mat_wf _ Hm). rewrite Nat2Z.inj_add, publen_correct by assumption. lia.
 Qed.
 
 (* ---------- the public packet body is exactly the first 6 + publen octets of the secret packet body ---------- *)
@@ -245,7 +253,7 @@ Proof.
     pose proof (publen_correct _ Hm). unfold publen. lia. }
   rewrite firstn_app_exact by exact Hl.
   unfold pub_packet_body. rewrite key_body_split. unfold keymaterial_bytes, pubkey_pkt. cbn [k_mat k_sec k_created k_alg].
-  rewrite app_nil_r. reflexivity.
+  rewrite app_nil_r. destruct H as [_ [_ Hm]]. rewrite (pub_mat_wf _ Hm). reflexivity.
 Qed.
 
 (* the first publen octets of the (public or secret) material are the public material *)
